@@ -37,7 +37,10 @@ void fb_slots_reset(void) {
   atomic_store(&fb_nslots, 0);
 }
 
+void (*fb_stranded_diag)(void);
+
 void fb_stranded_cb(void) {
+  if (fb_stranded_diag) fb_stranded_diag();
   const int n = atomic_load(&fb_nslots);
   int i, j, reported = 0;
   const char* seen[16];
